@@ -56,7 +56,7 @@ func (obj *PdfLogTransform) CloneScalarPdf() ScalarPdf {
 /* -------------------------------------------------------------------------- */
 
 func (obj *PdfLogTransform) LogPdf(r Scalar, x ConstScalar) error {
-  if v := x.GetFloat64(); v < 0.0 {
+  if v := x.GetFloat64(); v < 0.0 || v + obj.c <= 0.0 {
     r.SetFloat64(math.Inf(-1))
     return nil
   }
